@@ -11,7 +11,8 @@ package encode
 //@ let S1 (proto.abs e.err e.mode)
 //@ let defaultMeta (and (= (len e.buf) (int 5)) (= (at e.buf (int 0)) #x89) (= (at e.buf (int 1)) #x49) (= (at e.buf (int 2)) #x56) (= (at e.buf (int 3)) #x47) (= (at e.buf (int 4)) #x00))
 //@ let bufRegionOnly (mem.frame2.u8 (old mem.u8) mem.u8 (old nextR) (rgn e.buf) (rgn (old e.buf)))
-//@ let Inv (and (bvule e.mode #x02) (bvult e.cSel #x40) (bvult e.nSel #x40) (=> (and (= e.mode #x02) (not (= e.err nil.Iface))) (= e.err (errval errStylingOpsUsedInDrawingMode))))
+//@ let InvW (and (bvule e.mode #x02) (=> (= e.drawOp #x00) (= (len e.drawArgs) (int 0))) (bvult e.cSel #x40) (bvult e.nSel #x40) (=> (and (= e.mode #x02) (not (= e.err nil.Iface))) (= e.err (errval errStylingOpsUsedInDrawingMode))))
+//@ let Inv (and (bvule e.mode #x02) (=> (= e.drawOp #x00) (= (len e.drawArgs) (int 0))) (=> (not (= e.drawOp #x00)) (= e.mode #x02)) (bvult e.cSel #x40) (bvult e.nSel #x40) (=> (and (= e.mode #x02) (not (= e.err nil.Iface))) (= e.err (errval errStylingOpsUsedInDrawingMode))))
 
 //@ contract (*buffer).encodeNatural
 //@   modifies *b mem.u8
@@ -61,6 +62,12 @@ package encode
 //@   ensures [C08.enc.z2o.close C01.enc.z2o] (=> (and (= result (int 4)) (not (fp.isNaN f))) (spec.close4bits (f32bits f) (spec.bits4 (arr *b) start)))
 //@   ensures [C08.enc.z2o.nan C01.enc.z2o] (=> (= result (int 4)) (spec.close4nan f (spec.bits4 (arr *b) start)))
 
+//@ contract (*buffer).encodeAngle
+//@   modifies *b mem.u8
+//@   let start (bvadd (off *b) (len (old *b)))
+//@   ensures [C08.enc.angle.append C01.enc.angle] (appended *b result 4)
+//@   ensures [C08.enc.angle.len C01.enc.angle] (and (= (spec.numLen (select (arr *b) start)) result) (or (= result (int 1)) (= result (int 2)) (= result (int 4))))
+
 //@ contract (*Encoder).quantize
 //@   let inrange (and (fp.leq ((_ to_fp 8 24) RNE (- 128.0)) coord) (fp.lt coord ((_ to_fp 8 24) RNE 128.0)))
 //@   let c64 (fp.mul RNE ((_ to_fp 11 53) RNE coord) ((_ to_fp 11 53) RNE 64.0))
@@ -74,16 +81,18 @@ package encode
 
 //@ contract (*Encoder).appendDefaultMetadata
 //@   requires Inv
+//@   requires (= e.mode #x00)
 //@   ensures [inv] Inv
-//@   modifies e.buf e.mode mem.u8
+//@   modifies e.buf e.mode e.lod1 mem.u8
 //@   ensures (= e.mode #x01)
 //@   ensures [C10.default-meta C01.default-meta] defaultMeta
+//@   ensures [C10.zero.lod] (=> (and (= (old e.lod0) (_ +zero 8 24)) (= (old e.lod1) (_ +zero 8 24))) (and (= e.lod0 (_ +zero 8 24)) (= e.lod1 (_ +oo 8 24))))
 //@   ensures bufRegionOnly
 
 //@ contract (*Encoder).checkModeStyling
 //@   requires Inv
 //@   ensures [inv] Inv
-//@   modifies e.buf e.mode e.err mem.u8
+//@   modifies e.buf e.mode e.lod1 e.err mem.u8
 //@   ensures [C10.check.mode] (= e.mode (ite (= (old e.mode) #x00) #x01 (old e.mode)))
 //@   ensures [C10.check.err] (ite (= (old e.mode) #x02) (not (= e.err nil.Iface)) (= e.err (old e.err)))
 //@   ensures [C10.check.buf C01.check.buf] (ite (= (old e.mode) #x00) (and defaultMeta bufRegionOnly) (and (= e.buf (old e.buf)) (= mem.u8 (old mem.u8))))
@@ -91,32 +100,33 @@ package encode
 //@ contract (*Encoder).CSel
 //@   requires Inv
 //@   ensures [inv] Inv
-//@   modifies e.buf e.mode mem.u8
+//@   modifies e.buf e.mode e.lod1 mem.u8
 //@   ensures [C07.enc.csel.read] (= result (old e.cSel))
 //@   ensures [C10.step.CSel] (proto.afterNeutral S0 S1)
 //@ contract (*Encoder).NSel
 //@   requires Inv
 //@   ensures [inv] Inv
-//@   modifies e.buf e.mode mem.u8
+//@   modifies e.buf e.mode e.lod1 mem.u8
 //@   ensures [C07.enc.nsel.read] (= result (old e.nSel))
 //@   ensures [C10.step.NSel] (proto.afterNeutral S0 S1)
 //@ contract (*Encoder).LOD
 //@   requires Inv
 //@   ensures [inv] Inv
-//@   modifies e.buf e.mode mem.u8
+//@   modifies e.buf e.mode e.lod1 mem.u8
 //@   ensures [C10.step.LOD] (proto.afterNeutral S0 S1)
-//@   ensures [C10.lod.read] (and (= lod0 (old e.lod0)) (= lod1 (old e.lod1)))
+//@   ensures [C10.lod.read] (=> (not (= (old e.mode) #x00)) (and (= lod0 (old e.lod0)) (= lod1 (old e.lod1))))
+//@   ensures [C10.zero.LOD] (=> (and (= (old e.mode) #x00) (= (old e.lod0) (_ +zero 8 24)) (= (old e.lod1) (_ +zero 8 24))) (and (= lod0 (_ +zero 8 24)) (= lod1 (_ +oo 8 24))))
 
 //@ contract (*Encoder).SetCSel
 //@   requires Inv
 //@   ensures [inv] Inv
-//@   modifies e.buf e.mode e.err e.cSel mem.u8
+//@   modifies e.buf e.mode e.lod1 e.err e.cSel mem.u8
 //@   ensures [C10.step.SetCSel] (proto.afterStyling S0 false S1)
 //@   ensures [C07.enc.setcsel] (= e.cSel (ite (proto.accepts S0 false) (bvand cSel #x3f) (old e.cSel)))
 //@ contract (*Encoder).SetNSel
 //@   requires Inv
 //@   ensures [inv] Inv
-//@   modifies e.buf e.mode e.err e.nSel mem.u8
+//@   modifies e.buf e.mode e.lod1 e.err e.nSel mem.u8
 //@   ensures [C10.step.SetNSel] (proto.afterStyling S0 false S1)
 //@   ensures [C07.enc.setnsel] (= e.nSel (ite (proto.accepts S0 false) (bvand nSel #x3f) (old e.nSel)))
 
@@ -124,14 +134,14 @@ package encode
 //@   requires Inv
 //@   ensures [inv] Inv
 //@   requires [validColor] (spec.validColor c)
-//@   modifies e.buf e.mode e.err e.cSel mem.u8
+//@   modifies e.buf e.mode e.lod1 e.err e.cSel mem.u8
 //@   ensures [C10.step.SetCReg] (proto.afterStyling S0 (proto.badAdj adj incr) S1)
 //@   ensures [C07.enc.setcreg.sel] (=> (proto.accepts S0 (proto.badAdj adj incr)) (and (= e.cSel (ite incr (bvand (bvadd (old e.cSel) #x01) #x3f) (old e.cSel))) (= e.nSel (old e.nSel))))
 
 //@ contract (*Encoder).SetNReg
 //@   requires Inv
 //@   ensures [inv] Inv
-//@   modifies e.buf e.mode e.err e.nSel e.scratch mem.u8
+//@   modifies e.buf e.mode e.lod1 e.err e.nSel e.scratch mem.u8
 //@   ensures [C10.step.SetNReg] (proto.afterStyling S0 (proto.badAdj adj incr) S1)
 //@   ensures [C07.enc.setnreg.sel] (=> (proto.accepts S0 (proto.badAdj adj incr)) (and (= e.nSel (ite incr (bvand (bvadd (old e.nSel) #x01) #x3f) (old e.nSel))) (= e.cSel (old e.cSel))))
 
@@ -145,5 +155,206 @@ package encode
 //@ contract (*Encoder).StartPath
 //@   requires Inv
 //@   ensures [inv] Inv
-//@   modifies e.buf e.mode e.err e.highResolutionCoordinates mem.u8
+//@   modifies e.buf e.mode e.lod1 e.err e.highResolutionCoordinates mem.u8
 //@   ensures [C10.step.StartPath] (proto.afterStart S0 (bvugt adj #x06) S1)
+
+
+// ---- drawing operations
+
+
+//@ contract (*Encoder).flushDrawOps
+//@   requires InvW
+//@   ensures [inv] Inv
+//@   requires [verb] (or (= e.drawOp #x00) (enc.isVerb e.drawOp))
+//@   modifies e.buf e.drawOp e.drawArgs mem.u8
+//@   ensures [C10.flush.empty C17.flush.empty] (and (= e.drawOp #x00) (= (len e.drawArgs) (int 0)))
+//@   let nA ((_ zero_extend 56) drawOps[e.drawOp].nArgs)
+//@   invariant 0 [flush.outer] (and (bvsle (int 0) i) (bvsle i (len e.drawArgs)) (bvsle (int 0) n) (bvsle n (len e.drawArgs)) (bvsle (bvadd i (bvmul n nA)) (len e.drawArgs)))
+//@   invariant 2 [flush.args] (and (bvsle (int 0) i) (bvsle i (len e.drawArgs)) (bvsle (int 0) j) (bvsle (int 0) n) (bvsle n (len e.drawArgs)) (bvsle (int 1) m) (bvsle m n) (bvsle j (bvmul m nA)) (bvsle (bvadd i (bvadd j (bvmul (bvsub n m) nA))) (len e.drawArgs)))
+//@   invariant 1 [flush.arcs] (and (= nA (int 6)) (bvsle (int 0) i) (bvsle i (len e.drawArgs)) (bvsle (int 0) j) (bvsle (int 0) n) (bvsle n (len e.drawArgs)) (bvsle (int 1) m) (bvsle m n) (bvsle j m) (bvsle (bvadd i (bvadd (bvmul j (int 6)) (bvmul (bvsub n m) (int 6)))) (len e.drawArgs)))
+
+//@ contract (*Encoder).draw
+//@   requires Inv
+//@   ensures [inv] Inv
+//@   requires [verb] (enc.isVerb drawOp)
+//@   requires [verb.pending] (or (= e.drawOp #x00) (enc.isVerb e.drawOp))
+//@   modifies e.err e.mode e.lod1 e.drawOp e.drawArgs e.buf mem.u8 mem.f32
+//@   ensures [C10.step.draw] (ite (= drawOp #x5a) (proto.afterEnd S0 S1) (proto.afterDraw S0 S1))
+//@   ensures [verb.pending] (or (= e.drawOp #x00) (enc.isVerb e.drawOp))
+
+//@ contract (*Encoder).arcTo
+//@   requires Inv
+//@   ensures [inv] Inv
+//@   requires [verb] (or (= drawOp #x41) (= drawOp #x61))
+//@   requires [verb.pending] (or (= e.drawOp #x00) (enc.isVerb e.drawOp))
+//@   modifies e.err e.mode e.lod1 e.drawOp e.drawArgs e.buf mem.u8 mem.f32
+//@   ensures [C10.step.arcTo] (proto.afterDraw S0 S1)
+//@   ensures [verb.pending] (or (= e.drawOp #x00) (enc.isVerb e.drawOp))
+
+//@ contract (*Encoder).ClosePathEndPath
+//@   requires Inv
+//@   ensures [inv] Inv
+//@   requires [verb.pending] (or (= e.drawOp #x00) (enc.isVerb e.drawOp))
+//@   modifies e.err e.mode e.lod1 e.drawOp e.drawArgs e.buf mem.u8 mem.f32
+//@   ensures [C10.step.ClosePathEndPath] (proto.afterEnd S0 S1)
+//@   ensures [verb.pending] (or (= e.drawOp #x00) (enc.isVerb e.drawOp))
+
+//@ contract (*Encoder).AbsHLineTo
+//@   requires Inv
+//@   ensures [inv] Inv
+//@   requires [verb.pending] (or (= e.drawOp #x00) (enc.isVerb e.drawOp))
+//@   modifies e.err e.mode e.lod1 e.drawOp e.drawArgs e.buf mem.u8 mem.f32
+//@   ensures [C10.step.AbsHLineTo] (proto.afterDraw S0 S1)
+//@   ensures [verb.pending] (or (= e.drawOp #x00) (enc.isVerb e.drawOp))
+
+//@ contract (*Encoder).RelHLineTo
+//@   requires Inv
+//@   ensures [inv] Inv
+//@   requires [verb.pending] (or (= e.drawOp #x00) (enc.isVerb e.drawOp))
+//@   modifies e.err e.mode e.lod1 e.drawOp e.drawArgs e.buf mem.u8 mem.f32
+//@   ensures [C10.step.RelHLineTo] (proto.afterDraw S0 S1)
+//@   ensures [verb.pending] (or (= e.drawOp #x00) (enc.isVerb e.drawOp))
+
+//@ contract (*Encoder).AbsVLineTo
+//@   requires Inv
+//@   ensures [inv] Inv
+//@   requires [verb.pending] (or (= e.drawOp #x00) (enc.isVerb e.drawOp))
+//@   modifies e.err e.mode e.lod1 e.drawOp e.drawArgs e.buf mem.u8 mem.f32
+//@   ensures [C10.step.AbsVLineTo] (proto.afterDraw S0 S1)
+//@   ensures [verb.pending] (or (= e.drawOp #x00) (enc.isVerb e.drawOp))
+
+//@ contract (*Encoder).RelVLineTo
+//@   requires Inv
+//@   ensures [inv] Inv
+//@   requires [verb.pending] (or (= e.drawOp #x00) (enc.isVerb e.drawOp))
+//@   modifies e.err e.mode e.lod1 e.drawOp e.drawArgs e.buf mem.u8 mem.f32
+//@   ensures [C10.step.RelVLineTo] (proto.afterDraw S0 S1)
+//@   ensures [verb.pending] (or (= e.drawOp #x00) (enc.isVerb e.drawOp))
+
+//@ contract (*Encoder).AbsLineTo
+//@   requires Inv
+//@   ensures [inv] Inv
+//@   requires [verb.pending] (or (= e.drawOp #x00) (enc.isVerb e.drawOp))
+//@   modifies e.err e.mode e.lod1 e.drawOp e.drawArgs e.buf mem.u8 mem.f32
+//@   ensures [C10.step.AbsLineTo] (proto.afterDraw S0 S1)
+//@   ensures [verb.pending] (or (= e.drawOp #x00) (enc.isVerb e.drawOp))
+
+//@ contract (*Encoder).RelLineTo
+//@   requires Inv
+//@   ensures [inv] Inv
+//@   requires [verb.pending] (or (= e.drawOp #x00) (enc.isVerb e.drawOp))
+//@   modifies e.err e.mode e.lod1 e.drawOp e.drawArgs e.buf mem.u8 mem.f32
+//@   ensures [C10.step.RelLineTo] (proto.afterDraw S0 S1)
+//@   ensures [verb.pending] (or (= e.drawOp #x00) (enc.isVerb e.drawOp))
+
+//@ contract (*Encoder).AbsSmoothQuadTo
+//@   requires Inv
+//@   ensures [inv] Inv
+//@   requires [verb.pending] (or (= e.drawOp #x00) (enc.isVerb e.drawOp))
+//@   modifies e.err e.mode e.lod1 e.drawOp e.drawArgs e.buf mem.u8 mem.f32
+//@   ensures [C10.step.AbsSmoothQuadTo] (proto.afterDraw S0 S1)
+//@   ensures [verb.pending] (or (= e.drawOp #x00) (enc.isVerb e.drawOp))
+
+//@ contract (*Encoder).RelSmoothQuadTo
+//@   requires Inv
+//@   ensures [inv] Inv
+//@   requires [verb.pending] (or (= e.drawOp #x00) (enc.isVerb e.drawOp))
+//@   modifies e.err e.mode e.lod1 e.drawOp e.drawArgs e.buf mem.u8 mem.f32
+//@   ensures [C10.step.RelSmoothQuadTo] (proto.afterDraw S0 S1)
+//@   ensures [verb.pending] (or (= e.drawOp #x00) (enc.isVerb e.drawOp))
+
+//@ contract (*Encoder).AbsQuadTo
+//@   requires Inv
+//@   ensures [inv] Inv
+//@   requires [verb.pending] (or (= e.drawOp #x00) (enc.isVerb e.drawOp))
+//@   modifies e.err e.mode e.lod1 e.drawOp e.drawArgs e.buf mem.u8 mem.f32
+//@   ensures [C10.step.AbsQuadTo] (proto.afterDraw S0 S1)
+//@   ensures [verb.pending] (or (= e.drawOp #x00) (enc.isVerb e.drawOp))
+
+//@ contract (*Encoder).RelQuadTo
+//@   requires Inv
+//@   ensures [inv] Inv
+//@   requires [verb.pending] (or (= e.drawOp #x00) (enc.isVerb e.drawOp))
+//@   modifies e.err e.mode e.lod1 e.drawOp e.drawArgs e.buf mem.u8 mem.f32
+//@   ensures [C10.step.RelQuadTo] (proto.afterDraw S0 S1)
+//@   ensures [verb.pending] (or (= e.drawOp #x00) (enc.isVerb e.drawOp))
+
+//@ contract (*Encoder).AbsSmoothCubeTo
+//@   requires Inv
+//@   ensures [inv] Inv
+//@   requires [verb.pending] (or (= e.drawOp #x00) (enc.isVerb e.drawOp))
+//@   modifies e.err e.mode e.lod1 e.drawOp e.drawArgs e.buf mem.u8 mem.f32
+//@   ensures [C10.step.AbsSmoothCubeTo] (proto.afterDraw S0 S1)
+//@   ensures [verb.pending] (or (= e.drawOp #x00) (enc.isVerb e.drawOp))
+
+//@ contract (*Encoder).RelSmoothCubeTo
+//@   requires Inv
+//@   ensures [inv] Inv
+//@   requires [verb.pending] (or (= e.drawOp #x00) (enc.isVerb e.drawOp))
+//@   modifies e.err e.mode e.lod1 e.drawOp e.drawArgs e.buf mem.u8 mem.f32
+//@   ensures [C10.step.RelSmoothCubeTo] (proto.afterDraw S0 S1)
+//@   ensures [verb.pending] (or (= e.drawOp #x00) (enc.isVerb e.drawOp))
+
+//@ contract (*Encoder).AbsCubeTo
+//@   requires Inv
+//@   ensures [inv] Inv
+//@   requires [verb.pending] (or (= e.drawOp #x00) (enc.isVerb e.drawOp))
+//@   modifies e.err e.mode e.lod1 e.drawOp e.drawArgs e.buf mem.u8 mem.f32
+//@   ensures [C10.step.AbsCubeTo] (proto.afterDraw S0 S1)
+//@   ensures [verb.pending] (or (= e.drawOp #x00) (enc.isVerb e.drawOp))
+
+//@ contract (*Encoder).RelCubeTo
+//@   requires Inv
+//@   ensures [inv] Inv
+//@   requires [verb.pending] (or (= e.drawOp #x00) (enc.isVerb e.drawOp))
+//@   modifies e.err e.mode e.lod1 e.drawOp e.drawArgs e.buf mem.u8 mem.f32
+//@   ensures [C10.step.RelCubeTo] (proto.afterDraw S0 S1)
+//@   ensures [verb.pending] (or (= e.drawOp #x00) (enc.isVerb e.drawOp))
+
+//@ contract (*Encoder).ClosePathAbsMoveTo
+//@   requires Inv
+//@   ensures [inv] Inv
+//@   requires [verb.pending] (or (= e.drawOp #x00) (enc.isVerb e.drawOp))
+//@   modifies e.err e.mode e.lod1 e.drawOp e.drawArgs e.buf mem.u8 mem.f32
+//@   ensures [C10.step.ClosePathAbsMoveTo] (proto.afterDraw S0 S1)
+//@   ensures [verb.pending] (or (= e.drawOp #x00) (enc.isVerb e.drawOp))
+
+//@ contract (*Encoder).ClosePathRelMoveTo
+//@   requires Inv
+//@   ensures [inv] Inv
+//@   requires [verb.pending] (or (= e.drawOp #x00) (enc.isVerb e.drawOp))
+//@   modifies e.err e.mode e.lod1 e.drawOp e.drawArgs e.buf mem.u8 mem.f32
+//@   ensures [C10.step.ClosePathRelMoveTo] (proto.afterDraw S0 S1)
+//@   ensures [verb.pending] (or (= e.drawOp #x00) (enc.isVerb e.drawOp))
+
+//@ contract (*Encoder).AbsArcTo
+//@   requires Inv
+//@   ensures [inv] Inv
+//@   requires [verb.pending] (or (= e.drawOp #x00) (enc.isVerb e.drawOp))
+//@   modifies e.err e.mode e.lod1 e.drawOp e.drawArgs e.buf mem.u8 mem.f32
+//@   ensures [C10.step.AbsArcTo] (proto.afterDraw S0 S1)
+//@   ensures [verb.pending] (or (= e.drawOp #x00) (enc.isVerb e.drawOp))
+
+//@ contract (*Encoder).RelArcTo
+//@   requires Inv
+//@   ensures [inv] Inv
+//@   requires [verb.pending] (or (= e.drawOp #x00) (enc.isVerb e.drawOp))
+//@   modifies e.err e.mode e.lod1 e.drawOp e.drawArgs e.buf mem.u8 mem.f32
+//@   ensures [C10.step.RelArcTo] (proto.afterDraw S0 S1)
+//@   ensures [verb.pending] (or (= e.drawOp #x00) (enc.isVerb e.drawOp))
+
+//@ contract (*Encoder).Bytes
+//@   requires Inv
+//@   ensures [inv] Inv
+//@   modifies e.buf e.mode e.lod1 mem.u8
+//@   ensures [C10.step.Bytes] (proto.afterNeutral S0 S1)
+//@   ensures [C10.bytes.err] (= result.1 (old e.err))
+//@   ensures [C10.bytes.result C17.bytes.result] (=> (= (old e.err) nil.Iface) (= result.0 e.buf))
+
+//@ contract (*Encoder).Reset
+//@   modifies e mem.u8
+//@   ensures [inv] Inv
+//@   ensures [C10.step.Reset C17.enc.reset.proto] (= S1 P.Styling)
+//@   ensures [C17.enc.reset-total C10.reset.fields] (and (not e.HighResolutionCoordinates) (not e.highResolutionCoordinates) (= e.err nil.Iface) (= e.lod0 (_ +zero 8 24)) (= e.lod1 (_ +oo 8 24)) (= e.cSel #x00) (= e.nSel #x00) (= e.mode #x01) (= e.drawOp #x00) (= (len e.drawArgs) (int 0)) (= e.metadata.ViewBox viewbox) (= e.metadata.Palette palette))
+//@   ensures [C17.enc.reset.scratch] (= e.scratch ((as const (Array (_ BitVec 64) (_ BitVec 8))) #x00))
+//@   invariant 0 [reset.n] (and (bvsle (int -1) n) (bvsle n (int 63)))
